@@ -442,12 +442,18 @@ impl<B: Body> RequestBuilder<B> {
         let headers = &mut prepped.headers;
 
         header_insert(headers, CONNECTION, "close")?;
+        // The framing headers must describe the body that is actually written, whatever the caller set.
         match prepped.body.kind()? {
-            BodyKind::Empty => (),
+            BodyKind::Empty => {
+                headers.remove(CONTENT_LENGTH);
+                headers.remove(TRANSFER_ENCODING);
+            }
             BodyKind::KnownLength(len) => {
+                headers.remove(TRANSFER_ENCODING);
                 header_insert(headers, CONTENT_LENGTH, len)?;
             }
             BodyKind::Chunked => {
+                headers.remove(CONTENT_LENGTH);
                 header_insert(headers, TRANSFER_ENCODING, "chunked")?;
             }
         }
